@@ -259,4 +259,56 @@ example : enumFlagValues .long none [some (.uint 63)] = none := by decide
 example : enumFlagValues .ubyte none [none, none, some (.uint 7)] = some [1, 2, 128] := by decide
 example : enumFlagValues .byte none [some (.uint 7)] = none := by decide
 
+/-! ### force_align -/
+
+/-- the permitted alignments: the powers of two up to `FLATCC_FORCE_ALIGN_MAX` (regenerated from config.h: 256) -/
+def alignValues : List Nat := [1, 2, 4, 8, 16, 32, 64, 128, 256]
+
+/-- the whole finite table 0..256, evaluated by the kernel (no axioms beyond the usual three) -/
+theorem validAlign_small : ∀ a, a ≤ 256 → (isValidAlign a = true ↔ a ∈ alignValues) := by decide +kernel
+
+/-- `is_valid_align` accepts exactly the powers of two 1..256, for every 64-bit (indeed every) value -/
+theorem C08_valid_align (a : Nat) : isValidAlign a = true ↔ a ∈ alignValues := by
+  by_cases h : a ≤ 256
+  · exact validAlign_small a h
+  · constructor
+    · intro hv
+      unfold isValidAlign at hv
+      have : a > Flatcc.Consts.forceAlignMax := by show a > 256; omega
+      simp [this] at hv
+    · intro hm
+      unfold alignValues at hm
+      simp only [List.mem_cons, List.mem_nil_iff, or_false] at hm
+      omega
+
+/-- `force_align: <literal>` is accepted iff the literal is an unsigned integer whose VALUE is a permitted alignment not below the
+natural alignment of the members, and the struct is then aligned to exactly that value — no narrowing of the literal before the test -/
+theorem C08_force_align (l : Lit) (natural a : Nat) :
+    forceAlign l natural = some a ↔ readLit l = .uint a ∧ a ∈ alignValues ∧ natural ≤ a := by
+  unfold forceAlign
+  cases h : readLit l with
+  | uint u =>
+    simp only []
+    constructor
+    · intro hs
+      split at hs
+      · next hc =>
+        injection hs with hs; subst hs
+        simp only [Bool.and_eq_true, decide_eq_true_eq] at hc
+        exact ⟨rfl, (C08_valid_align u).mp hc.1, hc.2⟩
+      · cases hs
+    · intro ⟨he, hm, hn⟩
+      injection he with he; subst he
+      have hv := (C08_valid_align u).mpr hm
+      simp [hv, hn]
+  | int i => simp
+  | bool b => simp
+  | invalid => simp
+
+/-- values whose low 16 bits are a permitted alignment are still refused -/
+example : forceAlign (.dec false [54, 53, 53, 53, 50]) 4 = none := by decide      -- 65552 = 2^16 + 16
+example : forceAlign (.dec false [49, 54]) 4 = some 16 := by decide
+example : forceAlign (.dec false [50]) 4 = none := by decide                      -- below the natural alignment
+example : forceAlign (.dec false [53, 49, 50]) 4 = none := by decide              -- 512 > FLATCC_FORCE_ALIGN_MAX
+
 end Flatcc.SchemaNum
